@@ -755,6 +755,36 @@ func runSysCase(t *testing.T, c sysCase) error {
 	return fmt.Errorf("stream stalled twice although working proxies were available (and a fault-free canary session completes): %s", strings.TrimPrefix(err2.Error(), "STALL:"))
 }
 
+// natTap watches the process' standard logger (the client library logs "NAT Type: x" there).
+type natTapT struct {
+	mu   sync.Mutex
+	last string
+	at   time.Time
+}
+
+func (n *natTapT) Write(p []byte) (int, error) {
+	if i := strings.Index(string(p), "NAT Type: "); i >= 0 {
+		v := strings.TrimSpace(string(p)[i+len("NAT Type: "):])
+		n.mu.Lock()
+		n.last, n.at = v, time.Now()
+		n.mu.Unlock()
+	}
+	return len(p), nil
+}
+
+func (n *natTapT) since(t time.Time) string {
+	n.mu.Lock()
+	defer n.mu.Unlock()
+	if n.at.After(t) {
+		return n.last
+	}
+	return ""
+}
+
+var natTap = &natTapT{}
+
+func init() { log.SetOutput(natTap) }
+
 func runSysOnce(_ *testing.T, c sysCase, stall time.Duration) error {
 	r, err := rig.Get()
 	if err != nil {
@@ -813,12 +843,22 @@ func runSysOnce(_ *testing.T, c sysCase, stall time.Duration) error {
 		if c.PreFault == "blackholefirst" {
 			atomic.StoreInt32(&e.relay.holeNext, 1)
 		}
+		tapStart := time.Now()
 		tr, err := sf.NewSnowflakeClient(sf.ClientConfig{BrokerURL: e.brokerURL, ICEAddresses: []string{"stun:" + e.stun}, Max: c.Max, KeepLocalAddresses: true})
 		if err != nil {
 			return fmt.Errorf("harness: NewSnowflakeClient: %v", err)
 		}
-		// let the client learn its NAT type from the fake STUN before the first poll
-		time.Sleep(300 * time.Millisecond)
+		// let the client learn its NAT type from the fake STUN before the first poll: the rig's proxies report
+		// NAT "unknown" (no probe server), so only a client that knows it is "unrestricted" can be matched
+		natSeen := ""
+		for lim := time.Now().Add(12 * time.Second); time.Now().Before(lim); time.Sleep(20 * time.Millisecond) {
+			if natSeen = natTap.since(tapStart); natSeen != "" {
+				break
+			}
+		}
+		if natSeen != "unrestricted" {
+			return fmt.Errorf("harness: the client library determined NAT type %q (fake STUN not answered in time?): no proxy of the rig would be compatible", natSeen)
+		}
 		lc, err := tr.Dial()
 		if err != nil {
 			return fmt.Errorf("harness: Dial: %v", err)
@@ -916,6 +956,11 @@ func runSysOnce(_ *testing.T, c sysCase, stall time.Duration) error {
 		return fmt.Errorf("%s", res.Err)
 	}
 	if res.Stalled {
+		if bc, ok := conn.(*binConn); ok {
+			if b, err := os.ReadFile(bc.logPath); err == nil && !strings.Contains(string(b), "NAT Type: unrestricted") {
+				return fmt.Errorf("harness: the client binary never learnt that its NAT type is unrestricted (fake STUN not answered in time?): no proxy of the rig is compatible with it, the stall says nothing about the code")
+			}
+		}
 		return fmt.Errorf("STALL: no progress for %v: upstream %d/%d, downstream %d/%d bytes, %d live proxies", stall, res.UpGot, c.S.UpSize, res.DownGot, c.S.DownSize, len(e.alive()))
 	}
 	if !res.UpDone || !res.DownDone {
